@@ -180,7 +180,8 @@ def model_check_component(ex, comp, tier):
         results.append(r3)
     for r in results:
         if r.deadlock:
-            ms = [t.get("root", "") for t in r.deadlock if isinstance(t, dict) and t.get("st") == "run"]
+            ms = [t.get("root", "") for t in r.deadlock if isinstance(t, dict) and
+                  (t.get("st") == "run" or (t.get("st") == "done" and t.get("held")))]
             findings.append({"kind": "deadlock", "comp": comp, "a": ms[0] if ms else "", "b": ms[1] if len(ms) > 1 else "",
                              "threads": r.threads, "detail": json.dumps(r.deadlock)[:1500]})
         for bu in r.badunlock:
@@ -493,6 +494,8 @@ def run_check(pid, tier, seed, replay=None):
     concbin = build["conc"]
     probe = json.loads(lib.run([concbin, "seqprobe"], timeout=120, check=True).stdout.strip().splitlines()[-1])
     att_full = bool(probe.get("att_aggregate_ok")) and bool(probe.get("att_search_ok"))
+    sync_full = bool(probe.get("sync_fresh_ok"))
+    run.cov["sync_full"] = sync_full
 
     # ---------------- part B1: take every model-level counterexample to the real code
     pairs = collections.OrderedDict()
@@ -539,7 +542,8 @@ def run_check(pid, tier, seed, replay=None):
         # deadlock / bad unlock / leaked lock / livelock in the model: run exactly these methods under the watchdog
         comp, a, b = f["comp"], f["a"], f["b"]
         one = f.get("threads", 1) == 1 or not b
-        pr = run_pair(concbin, comp, a, b or a, 200 if one else 400, seed, single=one, full=att_full, calls=300)
+        pr = run_pair(concbin, comp, a, b if (b and not one) else ("" if one else a), 100 if one else 400, seed, single=one,
+                      full=att_full, calls=200 if one else 300)
         if pr["unsupported"]:
             raise lib.InfraError("model-level %s in %s (%s): no targeted driver: %s" % (f["kind"], comp, f["detail"][:300], pr["stderr"][-300:]))
         if pr["blocked"] or pr["fatal"] or pr["rc"] not in (0, 66):
@@ -574,7 +578,7 @@ def run_check(pid, tier, seed, replay=None):
     def do_record(job):
         drv, mix, sd, n, excl = job
         return job, record(concbin, drv, sd, n, T["gor"], T["ops"], mix=mix, exclude=excl,
-                           full=(att_full if drv == "att" else False), name="%s-%s-%d-%d" % (drv, mix, sd, len(excl)))
+                           full=(att_full if drv == "att" else sync_full if drv == "sync" else False), name="%s-%s-%d-%d" % (drv, mix, sd, len(excl)))
     recs = lib.parallel_map(do_record, jobs, workers=2)
 
     lib.log("[%.0fs] histories recorded (%d child processes)" % (lib.elapsed() - t0, len(jobs)))
@@ -686,7 +690,7 @@ def finish(run, tier, seed, t0, model_findings, att_full, skipped_histories=Fals
         "histories": run.histories, "races_observed": run.races_observed,
         "known_findings_observed": dict(run.known),
         "per_component": run.cov,
-        "attestation_pool_full_patterns": att_full,
+        "attestation_pool_full_patterns": att_full, "sync_pool_full_patterns": run.cov.get("sync_full", None),
         "model_counterexamples": ["%s %s.%s x %s %s" % (f["kind"], f["comp"], f["a"], f["b"], f.get("field", "")) for f in model_findings][:80],
         "exhaustive": False,
         "exhaustive_part": "Locks.tla: every interleaving of 1 and 2 threads (thorough: 3, deadlock/leak only) each running any "
